@@ -34,6 +34,8 @@ MODULES = {
     "routes": ("dns_routes.rs", "crates/erbium-core/src/dns/config.rs", "verif_routes"),
     "policy": ("dhcp_policy.rs", "crates/erbium-core/src/dhcp/mod.rs", "verif_policy"),
     "cache": ("dns_cache.rs", "crates/erbium-core/src/dns/cache/mod.rs", "verif_cache"),
+    "dhcpcfg": ("dhcp_cfg.rs", "crates/erbium-core/src/dhcp/config.rs", "verif_cfg"),
+    "radv": ("radv_wire.rs", "crates/erbium-core/src/radv/icmppkt.rs", "verif_radv"),
 }
 
 
